@@ -78,6 +78,55 @@ bool c15_position(Position& pos, const ref::Pos& rp, Report& rep, const std::str
     return true;
 }
 
+// Live walk on ONE Position object: make a move, ask there, unmake it, ask the parent again; make a null move (where the
+// search could), ask the side-to-move twin, unmake it, ask again.  The answers must be those of a freshly loaded position:
+// per-object or static memos that a make/unmake path forgets to invalidate, or that are keyed by part of the state only
+// (occupancy without the side to move), show up here and nowhere else.
+template <class Check>
+bool live_walk(Tape& t, const gen::Root& root, Report& rep, const char* tag, Check check)
+{
+    Position live = br::replay(root);
+    ref::Pos cur = root.cur;
+    int steps = 2 + int(t.choose(4));
+    for (int i = 0; i < steps; ++i)
+    {
+        std::vector<ref::Move> lm = ref::legal_moves(cur);
+        if (lm.empty()) break;
+        const ref::Move m = lm[t.choose(uint32_t(lm.size()))];
+        ref::Pos child = ref::make(cur, m);
+        Move em = live.parse_uci(m.uci());
+        MoveInfo info = live.do_move(em);
+        if (!check(live, child, std::string(tag) + ": live object after " + m.uci() + " from " + ref::to_fen(cur))) return false;
+        bool stay = t.chance(1, 3) && child.half <= 150;
+        if (stay)
+        {
+            cur = child;
+            continue;
+        }
+        live.undo_move(em, info);
+        rep.cls(std::string(tag) + ":asked_again_after_take_back");
+        if (!check(live, cur, std::string(tag) + ": live object after " + m.uci() + " was made, asked and taken back at " + ref::to_fen(cur))) return false;
+        if (!ref::in_check(cur, cur.wtm) && t.chance(1, 2))
+        {
+            // the side-to-move twin: same placement (and occupancy), other side to move
+            ref::Pos twin = cur;
+            twin.wtm = !cur.wtm;
+            twin.ep = -1;
+            twin.half = cur.half + 1;
+            if (!cur.wtm) twin.full = cur.full + 1;
+            if (ref::domain_violation(twin).empty())
+            {
+                MoveInfo ni = live.do_null_move();
+                rep.cls(std::string(tag) + ":asked_inside_a_null_move");
+                if (!check(live, twin, std::string(tag) + ": live object inside a null move made at " + ref::to_fen(cur))) return false;
+                live.undo_null_move(ni);
+                if (!check(live, cur, std::string(tag) + ": live object after a null move was made and taken back at " + ref::to_fen(cur))) return false;
+            }
+        }
+    }
+    return true;
+}
+
 bool prop_C15(Tape& t, Report& rep)
 {
     br::init_engine();
@@ -97,6 +146,8 @@ bool prop_C15(Tape& t, Report& rep)
         }
     }
     rep.decoded = root.describe();
+    if (t.chance(1, 6))
+        return live_walk(t, root, rep, "c15", [&](Position& p, const ref::Pos& rp, const std::string& ctx) { return c15_position(p, rp, rep, ctx + "\n root: " + root.describe()); });
     Position pos = br::from_fen(root.cur);
     if (!c15_position(pos, root.cur, rep, "root: " + root.describe())) return false;
     // children of the root as well (budgeted)
@@ -309,6 +360,8 @@ bool prop_C17(Tape& t, Report& rep)
     else
         root = gen::gen_root(t, &rep, 80);
     rep.decoded = root.describe();
+    if (t.chance(1, 6))
+        return live_walk(t, root, rep, "c17", [&](Position& p, const ref::Pos& rp, const std::string& ctx) { return c17_position(p, rp, rep, ctx + "\n root: " + root.describe()); });
     Position pos = br::from_fen(root.cur);
     if (!c17_position(pos, root.cur, rep, "root: " + root.describe())) return false;
     int budget = int(opt_int("children", g_tier ? 8 : 3));
